@@ -79,8 +79,8 @@ def c07():
         R("c07-no-landing", "C07", ARK, "            hstep = t1 - t0 if t1_achieved else h\n", "            hstep = h\n", "C07-X"),
         R("c07-landing-wrong-test", "C07", ARK, "            t1_achieved = t0 + h > t1\n", "            t1_achieved = t0 + h > t1 + h\n", "C07-X"),
         R("c07-shrink-min", "C07", ARK, "                factor = max(self.min_factor, self.step_mult * errnorm ** self.error_exponent)", "                factor = min(self.min_factor, self.step_mult * errnorm ** self.error_exponent)", "C07-X"),
-        R("c07-state-layout", "C07", ARK, "        rk_state = (fnew, tnew, ynew, h)\n        return rk_state, t1_achieved", "        rk_state = (fnew, tnew, y0, h)\n        return rk_state, t1_achieved", "C07-L"),
-        R("c07-state-tnew", "C07", ARK, "            tnew = t0 + hstep\n", "            tnew = t0 + h\n", "C07-L"),
+        R("c07-state-layout", "C07", ARK, "        rk_state = (fnew, tnew, ynew, h)\n        return rk_state, t1_achieved", "        rk_state = (fnew, tnew, y0, h)\n        return rk_state, t1_achieved", ["C07-L", "C07-X"]),
+        R("c07-state-tnew", "C07", ARK, "            tnew = t0 + hstep\n", "            tnew = t0 + h\n", ["C07-L", "C07-X"]),
         R("c07-abck-order", "C07", ARK, "            abck = (self.A, self.B, self.C, self.K)", "            abck = (self.A, self.C, self.B, self.K)", "C07-L"),
         R("c07-solve-wrong-component", "C07", ARK, "            yt[i] = rk_state[2]", "            yt[i] = rk_state[0]", "C07-L"),
         R("c07-solve-init-f0", "C07", ARK, "        f0 = self.func(t0, self.y0)\n", "        f0 = self.func(self.ts[1], self.y0)\n", "C07-L"),
